@@ -101,6 +101,7 @@ static void write_coord(sbuf *s, const vf_type *T, const dmat *A, int symmetric,
     if (mm) {
         sb_printf(s, "%%%%MatrixMarket matrix coordinate %s %s\n", T->cplx ? "complex" : "real", symmetric ? "symmetric" : "general");
         if (comments) sb_printf(s, "%% a comment line\n%%\n%% another one with numbers 1 2 3\n");
+        if (comments == 2) sb_printf(s, "\n");      /* a blank line between the comment block and the size line (the reference reader mmio.c skips it) */
         sb_printf(s, "%d %d %ld\n", n, n, ne);
     } else if (header) sb_printf(s, "%d %ld\n", n, ne);
     memset(E, 0, sizeof *E); E->m = E->n = n;
@@ -125,7 +126,7 @@ static void s_tr(const int *d, vcase *c) { pat_small(d[0], c); c->aux = 3; c->rh
 static void s_trn(const int *d, vcase *c) { pat_small(d[0], c); c->aux = 4; c->rhs = d[1]; c->permid = d[2]; c->type = TD; c->vals = d[0] % 3; }
 static const family F16[] = {
     { "HB/RB: (ALL(1..3) + DEV_1(BASE(5))) x {HB,RB} x 6 value formats x 4 integer formats x {general, symmetric, symmetric with descending rows, general with descending rows} x {no rhs, rhs block} x type4", 7, { NPAT, 2, 6, 4, 4, 2, 4 }, s_hb },
-    { "Matrix Market: patterns x {general, symmetric} x {plain, comment lines} x 24 entry orders x type4", 5, { NPAT, 2, 2, 24, 4 }, s_mm },
+    { "Matrix Market: patterns x {general, symmetric} x {plain, comment lines, comment lines + blank line} x 24 entry orders x type4", 5, { NPAT, 2, 3, 24, 4 }, s_mm },
     { "triplet with header: patterns x {1-based, 0-based} x 24 entry orders x type4", 4, { NPAT, 2, 24, 4 }, s_tr },
     { "triplet without header (EXAMPLE/dreadtriple_noheader.c): patterns x {1-based,0-based} x 24 entry orders", 3, { NPAT, 2, 24 }, s_trn },
 };
